@@ -92,6 +92,11 @@ func (p *networkSimplexProcessor) minSlackNonTreeEdge(edges []*graph.Edge, e *gr
 func (p *networkSimplexProcessor) feasibleTree(g *graph.DGraph) {
 	p.initLayers(g)
 	for {
+		// grow a new tight tree from scratch: walking again with the flags of the previous walk
+		// would accept a tight edge between two nodes that are both already in the tree
+		for _, e := range g.Edges {
+			e.IsInSpanningTree = false
+		}
 		treeNodes := tightTree(g.Nodes[0], graph.EdgeSet{}, graph.NodeSet{})
 		if len(treeNodes) == len(g.Nodes) {
 			break
